@@ -423,9 +423,7 @@ class VarsManager(object):
             value = self.variables[name].value
             if callable(value):
                 value = value()
-        else:
-            if name in self.bnd_dic:
-                value = self.bnd_dic[name].get_y2x(value)
+        # the variable stores the value itself, also when a bound is installed
         self.variables[name].assign(value)
         self.variables[name]._trainable = unfix
         if unfix:
